@@ -7,7 +7,7 @@ RULE = ("explicit-state BFS over well-formed edit histories of a real WaterNetwo
         "pattern P, curves H,G (HEAD) and V (VOLUME), source s, control c; operations add_junction/tank/reservoir/pipe/"
         "pump(HEAD|POWER, speed pattern)/valve(TCV|PRV)/pattern/curve/source/control, remove_node/link (with and without "
         "with_control)/pattern/curve/source/control, reassignment of start/end node, speed pattern, pump curve, volume curve, "
-        "head pattern, add_demand; start states: empty model, 'pumpnet' (3 nodes, pattern-using pump + pipe), 'roles' (untyped curve used as pump curve), 'lonely' (node without links but with a source and a control) and 'rich' "
+        "head pattern, add_demand; controls are simple controls (time or node pressure) and rules whose compound AND/OR condition reads the node in its last / first clause; start states: empty model, 'pumpnet' (3 nodes, pattern-using pump + pipe), 'roles' (untyped curve used as pump curve), 'lonely' (node without links but with a source and a control) and 'rich' "
         "(tank with volume curve, reservoir with head pattern, source, control).  Enabledness and the expected outcome "
         "(succeed / refuse) come from a plain-dict reference; the invariant compares every public view with it in every "
         "state.  A state is distinct by the canonical form of all observable views; non-trivial transition = a removal or "
@@ -147,6 +147,9 @@ class Ref(object):
                 for n in self.nodes:
                     if self.nodes[n]["t"] != "res":
                         ops.append(["add_control", "c", l, n])
+                        # rules with a compound condition: the node is read by the LAST clause (and2) / the FIRST clause (or1)
+                        ops.append(["add_control", "c", l, n, "and2"])
+                        ops.append(["add_control", "c", l, n, "or1"])
         else:
             ops.append(["remove_control", "c"])
         return ops
@@ -317,7 +320,15 @@ def do(wn, op):
             cond = C.SimTimeCondition(wn, "=", 3600)
         else:
             cond = C.ValueCondition(wn.get_node(op[3]), "pressure", "<", 5.0)
-        wn.add_control(op[1], C.Control(cond, act))
+        shape = op[4] if len(op) > 4 else None
+        if shape == "and2":
+            cond = C.AndCondition(C.SimTimeCondition(wn, ">=", 0), C.OrCondition(C.SimTimeCondition(wn, "=", 7200), cond))
+        elif shape == "or1":
+            cond = C.OrCondition(C.AndCondition(cond, C.SimTimeCondition(wn, ">=", 0)), C.SimTimeCondition(wn, "=", 7200))
+        if shape:
+            wn.add_control(op[1], C.Rule(cond, [act]))
+        else:
+            wn.add_control(op[1], C.Control(cond, act))
     elif k == "add_demand":
         wn.get_node(op[1]).add_demand(0.005, op[2], "cat2")
     elif k == "set_vol_curve":
@@ -393,6 +404,8 @@ def observe(wn):
     for k in ("pump", "efficiency", "headloss", "volume", "untyped"):
         o["typed:" + k] = _try(lambda: sorted(getattr(wn.curves, k + "_curve_names")))
         o["typediter:" + k] = _try(lambda: sorted(n for n, c in getattr(wn.curves, k + "_curves")() if c.name == n))
+    # not compared with the reference, but part of the state: a rule with a compound condition has other futures than a simple control
+    o["shape:control"] = _try(lambda: sorted("%s %s" % (type(c).__name__, c) for _, c in wn.controls()))
     o["todict"] = _try(lambda: json.dumps(wn.to_dict(), sort_keys=True, default=str)[:0] or "ok")
     return o
 
